@@ -35,17 +35,20 @@ def run(tier):
     scens = P.pool_scenarios(tier)
     scfile = P.write_scens(wd, scens, "pool_m")
     fullfile = P.write_scens(wd, P.full_scenarios(tier), "full_m")
-    ms = [P.leg_m(wd, "Pool_pool_mc.cfg", scfile, "pool family, permissive Revalidate (ideal rules)", timeout=1500),
-          P.leg_m(wd, "Pool_pool_full.cfg", fullfile, "pool-full path, MaxPool = 3 (ideal rules)")]
-    probes = {"DevEphDrop breaks RetentionStrict": P.probe(wd, "Pool_dev_ephdrop.cfg", scfile, "DevEphDrop", ["RetentionStrict"], "probe_ephdrop")}
+    q = tier == "quick"
+    res = P.parallel({
+        "m1": lambda: P.leg_m(wd, "Pool_pool_mc.cfg", scfile, "pool family, permissive Revalidate (ideal rules)", timeout=1500, workers=4),
+        "m2": lambda: P.leg_m(wd, "Pool_pool_full.cfg", fullfile, "pool-full path, MaxPool = 3 (ideal rules)", workers=2),
+        "p": lambda: P.probe(wd, "Pool_dev_ephdrop.cfg", scfile, "DevEphDrop", ["RetentionStrict"], "probe_ephdrop"),
+        "r": lambda: P.leg_r(wd, binary, PROP, "Pool_pool_edges.cfg", scens, "pool", rng, verdict, devs, accept=acc,
+                             max_paths=(320 if q else None), max_len=40),
+        "t": lambda: P.leg_t(wd, binary, PROP, "c05", verdict, devs, histories=(80 if q else 900), steps=(45 if q else 70), accept=acc,
+                             extra_env=({} if q else {"VERIF_FAT": 4}), timeout=3000),
+    })
+    ms, rr, tt = [res["m1"], res["m2"]], [res["r"]], res["t"]
+    probes = {"DevEphDrop breaks RetentionStrict": res["p"]}
     if not all(probes.values()):
         raise vlib.Infra("a named deviation no longer produces its design-level counterexample: %s" % probes)
-    rr = [P.leg_r(wd, binary, PROP, "Pool_pool_edges.cfg", scens, "pool", rng, verdict, devs, accept=acc,
-                  max_paths=(450 if tier == "quick" else None), max_len=40)]
-    if tier == "quick":
-        tt = P.leg_t(wd, binary, PROP, "c05", verdict, devs, histories=96, steps=45, accept=acc)
-    else:
-        tt = P.leg_t(wd, binary, PROP, "c05", verdict, devs, histories=900, steps=70, accept=acc, extra_env={"VERIF_FAT": 4}, timeout=3000)
     rc = verdict.finish()
     P.evidence(PROP, tier, ms, probes, rr, tt, t0, verdict,
                "family pool: fork trees of %d and 6 blocks with bodies that confirm a parent, its child, a conflicting transaction and a v1 transaction; "
